@@ -29,7 +29,12 @@ Clause → theorem
   data / fit descriptions of the wrong dimension, without method, unknown fit method, unknown
   weights keyword, unknown reference keyword and too few intervals while fitting
                                                 fit_ok_iff_wellformed, fit_first_error_position
-  malformed HDC limits / deltas                 grid_ok_iff_wellformed, grid_first_error_position
+  data of the wrong dimension, over the SHAPE of np.array(data): scalar, flat sequence (of n_rows or
+  of exactly n_dim values), last axis ≠ n_dim     checkData_ok_iff, checkData_error
+  malformed HDC limits / deltas (lengths, tuple lengths, entries that are not finite numbers,
+  zero / negative / NaN steps)                  grid_ok_iff_wellformed (for n_dim ≥ 1), grid_first_error_position
+  NaN in the HDC density table (anchored raise sites; not in the property's list: correspondence only)
+                                                density_ok_iff_wellformed
   unknown slicer options, reference keywords, too few intervals
                                                 slicer_ok_iff_wellformed, slicer_too_few_iff
   non-finite evaluation points                  points_ok_iff_wellformed, points_error_kind
@@ -43,6 +48,21 @@ and min_n_intervals by `slice_` (first use) before any interval is returned; gri
 by the HighestDensityContour constructor before any density is evaluated.  A weights keyword is
 only looked at by least-squares fitting (documented: "ignored otherwise"), so `MethodOK` does not
 constrain it for 'mle'.
+
+What the model deliberately says about the code as it is (not more):
+  * `Check.firstConditional` (the `RuntimeError` at the end of `GlobalHierarchicalModel.__init__`) is DEAD
+    since the hierarchy check of `_check_dist_descriptions` (fix 61af94e): `phase3_after_phase1` proves that
+    after phase 1 `phase3` can only fail for an empty list (`emptyModel`, an `IndexError`), and
+    `first_error_position` has no `firstConditional` disjunct.  Likewise the bare `raise TypeError()` in
+    `IFORMContour._compute` is unreachable behind the constructor's type-name test and is not modelled.
+  * "data of the wrong dimension" is read as the code reads it: the LAST axis of np.array(data) must have
+    n_dim entries (`DataOK`); the code has no test on the number of axes beyond "at least two", so an array
+    with ≥ 3 axes and the right last axis passes `checkData` (what the numerical fits then do is outside the
+    model; the harness only records it).
+  * limit tuples given as (max, min) are not a `LimTag`: the code sorts them (`min(...)`, `max(...)`) when
+    deltas are given and derives a negative default step otherwise; only recorded by the harness.
+  * `LimTag.nonFinite`, `DVal.zero/neg/nan` end inside numpy (`ErrKind.leaf`): only "does not return" is
+    modelled, neither the class nor the position of those rejections.
 -/
 import VirVerif.Model.Validate
 import VirVerif.Lemmas.Hier
@@ -431,8 +451,71 @@ def FitDimOK (f : FitSpec) (i : Nat) (d : FitDim) : Prop :=
   (match d.slice with | none => True | some s => SliceOK s) ∧
     MethodOK d.lsqOk (descAt f i).method (descAt f i).weights
 
+/-- the data is a table with one column per dimension, as the code reads it: the LAST axis of
+`np.array(data)` has length n_dim and there are at least two axes (a scalar, a flat sequence of
+any length - also of length n_dim - are not).  The code does not look at the number of axes
+beyond that, see `checkData`. -/
+def DataOK (f : FitSpec) : Prop :=
+  f.dataShape.getLast? = some f.dims.length ∧ (0 < f.dims.length → 2 ≤ f.dataShape.length)
+
 def WellFormedFit (f : FitSpec) : Prop :=
-  DescsOK f ∧ f.dataDim = f.dims.length ∧ ∀ i (h : i < f.dims.length), FitDimOK f i f.dims[i]
+  DescsOK f ∧ DataOK f ∧ ∀ i (h : i < f.dims.length), FitDimOK f i f.dims[i]
+
+theorem checkData_ok_iff (f : FitSpec) : checkData f = .ok () ↔ DataOK f := by
+  unfold checkData DataOK
+  cases hs : f.dataShape.getLast? with
+  | none => simp
+  | some k =>
+    simp only [Option.some.injEq]
+    by_cases hk : k = f.dims.length
+    · rw [if_neg (by simpa using hk)]
+      by_cases hl : 0 < f.dims.length ∧ f.dataShape.length < 2
+      · rw [if_pos hl]
+        constructor
+        · intro h; cases h
+        · rintro ⟨_, h2⟩; have := h2 hl.1; omega
+      · rw [if_neg hl]
+        refine ⟨fun _ => ⟨hk, fun h0 => ?_⟩, fun _ => rfl⟩
+        by_cases h2 : 2 ≤ f.dataShape.length
+        · exact h2
+        · exact absurd ⟨h0, by omega⟩ hl
+    · rw [if_pos (by simpa using hk)]
+      constructor
+      · intro h; cases h
+      · rintro ⟨h1, _⟩; exact absurd h1 hk
+
+/-- which data error: a 0-axis array is an `IndexError`, a last axis of the wrong length the
+`ValueError` of the dimension check (also for a flat sequence of n_rows ≠ n_dim values), a flat
+sequence of exactly n_dim values an `IndexError` -/
+theorem checkData_error (f : FitSpec) (e : Err) (h : checkData f = .error e) :
+    (f.dataShape = [] ∧ e.check = .dataScalar) ∨
+    (∃ k, f.dataShape.getLast? = some k ∧ k ≠ f.dims.length ∧ e.check = .dataDim) ∨
+    (f.dataShape = [f.dims.length] ∧ e.check = .dataFlat) := by
+  unfold checkData at h
+  cases hs : f.dataShape.getLast? with
+  | none =>
+    rw [hs] at h
+    simp only [Except.error.injEq] at h
+    left; exact ⟨List.getLast?_eq_none_iff.mp hs, by rw [← h]⟩
+  | some k =>
+    rw [hs] at h
+    simp only at h
+    by_cases hk : k = f.dims.length
+    · right; right
+      by_cases hl : 0 < f.dims.length ∧ f.dataShape.length < 2
+      · simp only [hk, ne_eq, not_true_eq_false, if_false, hl, and_self, if_true, Except.error.injEq] at h
+        refine ⟨?_, by rw [← h]⟩
+        cases hd : f.dataShape with
+        | nil => rw [hd] at hs; simp at hs
+        | cons a t =>
+          have : t = [] := by
+            have := hl.2; rw [hd] at this; simp at this; exact List.eq_nil_of_length_eq_zero (by omega)
+          subst this
+          rw [hd] at hs; simp at hs; rw [hs, hk]
+      · simp [hk, hl] at h
+    · right; left
+      simp only [ne_eq, hk, not_false_eq_true, if_true, Except.error.injEq] at h
+      exact ⟨k, rfl, hk, by rw [← h]⟩
 
 theorem checkDescs_ok_iff (f : FitSpec) : checkDescs f = .ok () ↔ DescsOK f := by
   unfold checkDescs DescsOK
@@ -501,11 +584,7 @@ theorem fit_ok_iff_wellformed (f : FitSpec) : validateFit f = .ok () ↔ WellFor
   constructor
   · rintro ⟨hd, hdat, hloop⟩
     have hlen := filledDescs_length f hd
-    refine ⟨hd, ?_, ?_⟩
-    · unfold checkData at hdat
-      by_cases h : f.dataDim = f.dims.length
-      · exact h
-      · simp [h] at hdat
+    refine ⟨hd, (checkData_ok_iff f).mp hdat, ?_⟩
     · intro i hi
       unfold fitLoop at hloop
       rw [firstFail_ok_iff] at hloop
@@ -517,7 +596,7 @@ theorem fit_ok_iff_wellformed (f : FitSpec) : validateFit f = .ok () ↔ WellFor
       | none => exact (dimFitCheck_none_iff _ _).mp hk
   · rintro ⟨hd, hdat, hall⟩
     have hlen := filledDescs_length f hd
-    refine ⟨hd, by simp [checkData, hdat], ?_⟩
+    refine ⟨hd, (checkData_ok_iff f).mpr hdat, ?_⟩
     unfold fitLoop
     rw [firstFail_ok_iff]
     intro i hi
@@ -559,11 +638,18 @@ theorem fit_first_error_position (f : FitSpec) (e : Err) (hd : checkDescs f = .o
 
 /-- non-vacuity: Hs (exp. Weibull, wlsq / quadratic), Tz | Hs with 5 ≥ 3 intervals, default fit -/
 example : validateFit ⟨[⟨none, true⟩, ⟨some ⟨.width, .center, 5, 3⟩, false⟩],
-    some [some ⟨true, .wlsq, .quadratic⟩, none], 2⟩ = .ok () := by decide
+    some [some ⟨true, .wlsq, .quadratic⟩, none], [150, 2]⟩ = .ok () := by decide
 example : validateFit ⟨[⟨none, true⟩, ⟨some ⟨.width, .center, 2, 3⟩, false⟩],
-    some [some ⟨true, .wlsq, .quadratic⟩, none], 2⟩ = .error ⟨.tooFewIntervals, 1, 0⟩ := by decide
-example : validateFit ⟨[⟨none, true⟩, ⟨none, false⟩], some [some ⟨true, .wlsq, .unknownStr⟩, some ⟨false, .mle, .none⟩], 2⟩
+    some [some ⟨true, .wlsq, .quadratic⟩, none], [150, 2]⟩ = .error ⟨.tooFewIntervals, 1, 0⟩ := by decide
+example : validateFit ⟨[⟨none, true⟩, ⟨none, false⟩], some [some ⟨true, .wlsq, .unknownStr⟩, some ⟨false, .mle, .none⟩], [150, 2]⟩
     = .error ⟨.missingMethod, 1, 0⟩ := by decide
+/-- data shapes: a flat sequence of 150 values, a flat sequence of exactly n_dim = 2 values, a
+scalar, a (150, 2, 1) array - all rejected; the description error comes first -/
+example : validateFit ⟨[⟨none, false⟩, ⟨none, false⟩], none, [150]⟩ = .error ⟨.dataDim, 0, 0⟩ := by decide
+example : validateFit ⟨[⟨none, false⟩, ⟨none, false⟩], none, [2]⟩ = .error ⟨.dataFlat, 0, 0⟩ := by decide
+example : validateFit ⟨[⟨none, false⟩, ⟨none, false⟩], none, []⟩ = .error ⟨.dataScalar, 0, 0⟩ := by decide
+example : validateFit ⟨[⟨none, false⟩, ⟨none, false⟩], none, [150, 2, 1]⟩ = .error ⟨.dataDim, 0, 0⟩ := by decide
+example : validateFit ⟨[⟨none, false⟩, ⟨none, false⟩], some [none], [2]⟩ = .error ⟨.fitLength, 0, 0⟩ := by decide
 
 
 /-! ### highest density contour: limits and deltas -/
@@ -596,6 +682,8 @@ theorem cellCheck_none_iff (x : LimTag × DVal) :
   unfold cellCheck
   cases l with
   | scalar => simp
+  | nonNumeric => simp
+  | nonFinite => simp
   | tuple k =>
     by_cases hk : k = 2
     · subst hk; cases v <;> simp
@@ -728,6 +816,10 @@ example : validateGrid ⟨3, some [.tuple 2, .tuple 2, .tuple 2], .list [.pos, .
 example : validateGrid ⟨2, some [.tuple 2], .list [.pos]⟩ = .error ⟨.limitsLength, 0, 0⟩ := by decide
 example : validateGrid ⟨2, some [.tuple 2, .tuple 3], .none⟩ = .error ⟨.limitTuple, 1, 0⟩ := by decide
 example : validateGrid ⟨2, some [.tuple 2, .tuple 1], .none⟩ = .error ⟨.limitIndex, 1, 0⟩ := by decide
+/-- entries that are not finite numbers: (None, 4) is a `TypeError` in either stage, (nan, 4) fails inside numpy -/
+example : validateGrid ⟨2, some [.tuple 2, .nonNumeric], .none⟩ = .error ⟨.limitEntry, 1, 0⟩ := by decide
+example : validateGrid ⟨2, some [.nonNumeric, .tuple 2], .scalar .pos⟩ = .error ⟨.limitEntry, 0, 0⟩ := by decide
+example : validateGrid ⟨2, some [.tuple 2, .nonFinite], .none⟩ = .error ⟨.limitNonFinite, 1, 0⟩ := by decide
 
 
 /-- **P1 (HDC, first error).** When lengths are right, the limit / step error raised by the loop
@@ -809,6 +901,10 @@ theorem points_ok_iff_wellformed (rows : List (List PtTag)) :
     intro hall
     apply h
     simpa using hall
+
+/-- **P1 (HDC, NaN density).** The contour is computed iff the cell-averaged density has no NaN. -/
+theorem density_ok_iff_wellformed (hasNan : Bool) : validateDensity hasNan = .ok () ↔ hasNan = false := by
+  cases hasNan <;> simp [validateDensity]
 
 /-- **P1 (2-D only).** DirectSampling / And / Or contours compute only for 2-dimensional models. -/
 theorem twod_ok_iff_wellformed (n : Nat) : validateTwoD n = .ok () ↔ n = 2 := by
